@@ -238,7 +238,7 @@ class TaskScheduler(object):
         best_priority = None
         batches_to_remove = None
         for batch in self._batches:
-            if not batch.items or batch.is_flushed():
+            if not batch.items or batch.is_flushed() or batch._flushing:
                 if batches_to_remove is None:
                     batches_to_remove = [batch]
                 else:
